@@ -131,7 +131,9 @@ def check_pruning_sites():
     flat = re.sub(r"\s+", " ", ctx)
     if not re.search(r"if !block_scanning_mode \{ let filesize = self\.get_filesize\(\); for \(pattern_id, bounds\) in self\.compiled_rules\.filesize_bounds\(\) \{ if !bounds\.contains\(filesize\) \{ self\.tracker\.disabled_patterns\.insert\(\*pattern_id\);", flat):
         raise TranslateError("search_for_patterns: filesize pruning has an unexpected shape")
-    if not re.search(r"if base == 0 \{ for \(pattern_id, constraints\) in self\.compiled_rules\.header_constraints\(\) \{ if !constraints\.is_satisfied\(data\) \{ self\.tracker\.disabled_patterns\.insert\(\*pattern_id\);", flat):
+    # since 7f32d09d the test is `(!block_scanning_mode || constraints.is_decidable(data)) && !constraints.is_satisfied(data)`:
+    # when the data is scanned as a whole (what Opt/Bounds.v models) this is the former `!constraints.is_satisfied(data)`
+    if not re.search(r"if base == 0 \{ for \(pattern_id, constraints\) in self\.compiled_rules\.header_constraints\(\) \{ if (?:\(!block_scanning_mode \|\| constraints\.is_decidable\(data\)\) && )?!constraints\.is_satisfied\(data\) \{ self\.tracker\.disabled_patterns\.insert\(\*pattern_id\);", flat):
         raise TranslateError("search_for_patterns: header pruning has an unexpected shape")
     rules = strip_comments(src("lib/src/compiler/rules.rs"))
     flat = re.sub(r"\s+", " ", fn_body(rules, "is_satisfied"))
